@@ -145,7 +145,9 @@ theorem setReg_allInvalid (c : Cpu) (h : AllInvalid c) (i v : Nat) : AllInvalid 
     · exact key
     · split
       · exact key
-      · exact key
+      · split
+        · exact key
+        · exact key
 
 theorem getReg_allInvalid (c : Cpu) (h : AllInvalid c) (i : Nat) : AllInvalid (getReg c i).2.1 := by
   unfold getReg
@@ -162,54 +164,59 @@ theorem getReg_allInvalid (c : Cpu) (h : AllInvalid c) (i : Nat) : AllInvalid (g
       · exact hi
       · split
         · exact hi
-        · exact hi
+        · split
+          · exact hi
+          · exact hi
     · exact h x hx
 
 /-- reading a register returns exactly the bytes of the blob at its offset, in dump byte order;
 the blob and the register table are untouched by a read -/
-theorem getReg_eq_blob (c : Cpu) (h : AllInvalid c) (i : Nat) (r : Reg) (hr : c.regs[i]? = some r)
+theorem getReg_eq_blob (c : Cpu) (h : AllInvalid c) (hb : c.blobSet = true) (i : Nat) (r : Reg) (hr : c.regs[i]? = some r)
     (hin : r.d.off + r.d.len ≤ c.blob.length) (hl : okLen r.d.len = true) :
     (getReg c i).1 = .ok ∧
     (getReg c i).2.2 = some (decode c.be ((c.blob.drop r.d.off).take r.d.len)) ∧
     (getReg c i).2.1.blob = c.blob ∧ (getReg c i).2.1.be = c.be ∧
-    (getReg c i).2.1.regs.map (·.d) = c.regs.map (·.d) := by
+    (getReg c i).2.1.regs.map (·.d) = c.regs.map (·.d) ∧
+    (getReg c i).2.1.blobSet = c.blobSet := by
   have hi := inv_of_get h hr
   have hn : ¬ (r.d.off + r.d.len > c.blob.length) := by omega
   have hrv : regRevalidate c r =
       (.ok, { r with val := decode c.be ((c.blob.drop r.d.off).take r.d.len) }) := by
-    simp [regRevalidate, hn, hl]
-  simp only [getReg, hr, hi, hrv, Bool.not_true, Bool.false_eq_true, if_false, if_true, true_and]
+    simp [regRevalidate, hb, hn, hl]
+  simp only [getReg, hr, hi, hrv, Bool.not_true, Bool.false_eq_true, if_false, if_true, true_and,
+    and_true]
   apply map_setNth (·.d) c.regs i _ r hr
   rfl
 
 /-- a register outside the blob cannot be read -/
-theorem getReg_short (c : Cpu) (h : AllInvalid c) (i : Nat) (r : Reg) (hr : c.regs[i]? = some r)
+theorem getReg_short (c : Cpu) (h : AllInvalid c) (hb : c.blobSet = true) (i : Nat) (r : Reg) (hr : c.regs[i]? = some r)
     (hout : c.blob.length < r.d.off + r.d.len) :
     (getReg c i).1 = .corrupt ∧ (getReg c i).2.2 = none := by
   have hi := inv_of_get h hr
   have hrv : regRevalidate c r = (.corrupt, r) := by
-    simp [regRevalidate, hout]
+    simp [regRevalidate, hb, hout]
   simp [getReg, hr, hi, hrv]
 
-theorem setReg_eq (c : Cpu) (h : AllInvalid c) (i v : Nat) (r : Reg) (hr : c.regs[i]? = some r)
+theorem setReg_eq (c : Cpu) (h : AllInvalid c) (hb : c.blobSet = true) (i v : Nat) (r : Reg) (hr : c.regs[i]? = some r)
     (hin : r.d.off + r.d.len ≤ c.blob.length) (hl : okLen r.d.len = true) :
     setReg c i v = (.ok, { c with regs := setNth c.regs i { r with val := v, invalid := true },
                                   blob := patch c.blob r.d.off (encode c.be r.d.len v) }) := by
   have hi := inv_of_get h hr
   have hn : ¬ (r.d.off + r.d.len > c.blob.length) := by omega
-  simp [setReg, hr, hi, hn, hl]
+  simp [setReg, hr, hi, hb, hn, hl]
 
 /-- writing a register patches exactly its bytes of the blob … -/
-theorem setReg_blob (c : Cpu) (h : AllInvalid c) (i v : Nat) (r : Reg) (hr : c.regs[i]? = some r)
+theorem setReg_blob (c : Cpu) (h : AllInvalid c) (hb : c.blobSet = true) (i v : Nat) (r : Reg) (hr : c.regs[i]? = some r)
     (hin : r.d.off + r.d.len ≤ c.blob.length) (hl : okLen r.d.len = true) :
     (setReg c i v).1 = .ok ∧
     (setReg c i v).2.blob = patch c.blob r.d.off (encode c.be r.d.len v) ∧
     (setReg c i v).2.blob.length = c.blob.length ∧
     (∀ j, (j < r.d.off ∨ r.d.off + r.d.len ≤ j) → (setReg c i v).2.blob[j]? = c.blob[j]?) ∧
-    (setReg c i v).2.be = c.be ∧ (setReg c i v).2.regs.map (·.d) = c.regs.map (·.d) := by
-  rw [setReg_eq c h i v r hr hin hl]
+    (setReg c i v).2.be = c.be ∧ (setReg c i v).2.regs.map (·.d) = c.regs.map (·.d) ∧
+    (setReg c i v).2.blobSet = true := by
+  rw [setReg_eq c h hb i v r hr hin hl]
   have hlen : (encode c.be r.d.len v).length = r.d.len := encode_length _ _ _
-  refine ⟨rfl, rfl, ?_, ?_, rfl, ?_⟩
+  refine ⟨rfl, rfl, ?_, ?_, rfl, ?_, hb⟩
   · exact length_patch _ _ _ (by rw [hlen]; exact hin)
   · intro j hj
     exact getElem?_patch_outside _ _ _ j (by rw [hlen]; exact hin) (by rw [hlen]; exact hj)
@@ -217,18 +224,18 @@ theorem setReg_blob (c : Cpu) (h : AllInvalid c) (i v : Nat) (r : Reg) (hr : c.r
     rfl
 
 /-- … and reading it back gives the written value truncated to the register width -/
-theorem get_after_set (c : Cpu) (h : AllInvalid c) (i v : Nat) (r : Reg) (hr : c.regs[i]? = some r)
+theorem get_after_set (c : Cpu) (h : AllInvalid c) (hb : c.blobSet = true) (i v : Nat) (r : Reg) (hr : c.regs[i]? = some r)
     (hin : r.d.off + r.d.len ≤ c.blob.length) (hl : okLen r.d.len = true) :
     (getReg (setReg c i v).2 i).2.2 = some (v % 256 ^ r.d.len) := by
   have hlen : (encode c.be r.d.len v).length = r.d.len := encode_length _ _ _
   have hA : AllInvalid (setReg c i v).2 := setReg_allInvalid c h i v
-  rw [setReg_eq c h i v r hr hin hl] at hA ⊢
+  rw [setReg_eq c h hb i v r hr hin hl] at hA ⊢
   have hr' : (setNth c.regs i { r with val := v, invalid := true })[i]? =
       some { r with val := v, invalid := true } :=
     getElem?_setNth_self _ _ _ (lt_of_get hr)
-  have hb : (patch c.blob r.d.off (encode c.be r.d.len v)).length = c.blob.length :=
+  have hpl : (patch c.blob r.d.off (encode c.be r.d.len v)).length = c.blob.length :=
     length_patch _ _ _ (by rw [hlen]; exact hin)
-  have := (getReg_eq_blob _ hA i _ hr' (by simpa [hb] using hin) hl).2.1
+  have := (getReg_eq_blob _ hA hb i _ hr' (by simpa [hpl] using hin) hl).2.1
   rw [this]
   simp only
   have hdt := drop_take_patch c.blob r.d.off (encode c.be r.d.len v) (by omega)
@@ -236,11 +243,27 @@ theorem get_after_set (c : Cpu) (h : AllInvalid c) (i v : Nat) (r : Reg) (hr : c
   rw [hdt, decode_encode]
 
 /-- a write that fails (blob too short) leaves the blob alone -/
-theorem setReg_short (c : Cpu) (h : AllInvalid c) (i v : Nat) (r : Reg) (hr : c.regs[i]? = some r)
+theorem setReg_short (c : Cpu) (h : AllInvalid c) (hb : c.blobSet = true) (i v : Nat) (r : Reg) (hr : c.regs[i]? = some r)
     (hout : c.blob.length < r.d.off + r.d.len) :
     (setReg c i v).1 = .corrupt ∧ (setReg c i v).2.blob = c.blob := by
   have hi := inv_of_get h hr
-  simp [setReg, hr, hi, hout]
+  simp [setReg, hr, hi, hb, hout]
+
+/-- after the PRSTATUS attribute has been cleared no register can be read … -/
+theorem getReg_cleared (c : Cpu) (h : AllInvalid c) (hb : c.blobSet = false) (i : Nat) (r : Reg)
+    (hr : c.regs[i]? = some r) :
+    (getReg c i).1 = .nodata ∧ (getReg c i).2.2 = none := by
+  have hi := inv_of_get h hr
+  have hrv : regRevalidate c r = (.nodata, r) := by
+    simp [regRevalidate, hb]
+  simp [getReg, hr, hi, hrv]
+
+/-- … or written -/
+theorem setReg_cleared (c : Cpu) (h : AllInvalid c) (hb : c.blobSet = false) (i v : Nat) (r : Reg)
+    (hr : c.regs[i]? = some r) :
+    (setReg c i v).1 = .nodata ∧ (setReg c i v).2.blob = c.blob ∧ (setReg c i v).2.blobSet = false := by
+  have hi := inv_of_get h hr
+  simp [setReg, hr, hi, hb]
 
 /-! ### version code -/
 
